@@ -2341,7 +2341,14 @@ int32_t tls13EncodeAlert(ssl_t *ssl,
     {
         if (rc == SSL_FULL)
         {
+            /* The record that did not fit is the protected one: header,
+               alert, inner type, record padding and tag. */
             *requiredLen = messageSize;
+            if (ssl->tls13NextMsgRequiredLen > messageSize)
+            {
+                *requiredLen = ssl->tls13NextMsgRequiredLen;
+            }
+            ssl->tls13NextMsgRequiredLen = 0;
         }
         return rc;
     }
